@@ -87,8 +87,25 @@ func c15Updates(us []c15Upd) osm.Updates {
 	return out
 }
 
+// c15OwnTime gives the element itself a time stamp (and for every second case a commit time) in the middle of its
+// updates' times. The property does not mention the element's own time: updates stamped before it are applied like
+// any others.
+func c15OwnTime(us []c15Upd) (time.Time, *time.Time) {
+	if len(us) == 0 {
+		return time.Time{}, nil
+	}
+	m := us[len(us)/2]
+	ts := c15Time(m.ts)
+	if (m.ts+int64(len(us)))%2 == 0 {
+		return ts, nil
+	}
+	c := c15Time(m.ts + 1)
+	return ts, &c
+}
+
 func c15Way(cs []c15Child, us []c15Upd) *osm.Way {
 	w := &osm.Way{ID: 1, Version: 1, Visible: true, Updates: c15Updates(us)}
+	w.Timestamp, w.Committed = c15OwnTime(us)
 	for _, c := range cs {
 		w.Nodes = append(w.Nodes, osm.WayNode{ID: osm.NodeID(c.key), Version: int(c.ver), ChangesetID: osm.ChangesetID(c.cs), Lat: float64(c.lat) * 0.5, Lon: float64(c.lon) * 0.5})
 	}
@@ -97,6 +114,7 @@ func c15Way(cs []c15Child, us []c15Upd) *osm.Way {
 
 func c15Rel(cs []c15Child, us []c15Upd) *osm.Relation {
 	r := &osm.Relation{ID: 1, Version: 1, Visible: true, Updates: c15Updates(us)}
+	r.Timestamp, r.Committed = c15OwnTime(us)
 	for _, c := range cs {
 		r.Members = append(r.Members, osm.Member{Type: osm.TypeWay, Ref: c.key, Role: "outer", Version: int(c.ver), ChangesetID: osm.ChangesetID(c.cs),
 			Lat: float64(c.lat) * 0.5, Lon: float64(c.lon) * 0.5, Orientation: orbOrient(c.orient)})
